@@ -52,6 +52,7 @@ func c20(c *Ctx) {
 	c20requiredChildren(c)
 	c20blockComment(c)
 	c20positions(c)
+	c20scannerErrors(c)
 }
 
 // nodeish: *TokenNode, a type with a Format method from package ast, an interface of package ast, or a slice of those.
